@@ -320,6 +320,7 @@ func (m *materialiser) build(t types.Type, n *Node) value {
 		return out
 	case *types.Map:
 		om := makeMap(u.Key(), 0).(*omap)
+		om.elemT = u.Elem()
 		for k := range n.MK {
 			om.insert(m.build(u.Key(), n.MK[k]), m.build(u.Elem(), n.MV[k]))
 		}
